@@ -183,6 +183,19 @@ def run_contract(qualname, scenario_index, tier, seed, falsify_n):
                     out["exceptions"].append(ob.meta["detail"])
             if not any(k == "ok" for _, k, _, _ in results):
                 out["outside"] = "no path terminated normally"
+            # frame obligation (C17): on no feasible path does the code write into a buffer owned by
+            # the caller (ghost ownership flag of the input arrays, propagated through views)
+            lemmas = set()
+            for tr, events, pc in getattr(CTX, "path_events", []):
+                writes = [e for e in events if e[0] == "write_caller_buffer"]
+                lemmas |= {e[1] for e in events if e[0] == "lean_lemma"}
+                ob = core.Obligation(f"{contract.key}#writes_only_fresh_buffers", pc,
+                                     z3.BoolVal(False) if writes else z3.BoolVal(True), "frame",
+                                     {"path": tr, "scenario": scenario,
+                                      "detail": f"in-place write into caller-owned array(s) {sorted({w[1] for w in writes})}" if writes else ""})
+                ob.detail = ob.meta["detail"]
+                obls.append(ob)
+            out["lean_lemmas"] = sorted(lemmas)
     except Outside as e:
         out["outside"] = f"{e}"
         out["trace"] = traceback.format_exc()[-1500:]
